@@ -457,6 +457,9 @@ def topo_archetypes(rng, zones):
     def spread_zone(p): p["labels"]["app"] = "s"; p["spread"] = [topo_spread("zone")]
     def spread_zone2(p): p["labels"]["app"] = "s"; p["spread"] = [topo_spread("zone", skew=2)]
     def spread_zone_min(p): p["labels"]["app"] = "s"; p["spread"] = [topo_spread("zone", minDomains=rng.choice([2, 3, 3, 4]))]
+    def spread_zone_min_limited(p):      # fewer ELIGIBLE domains than minDomains although more are registered
+        p["labels"]["app"] = "s"; p["spread"] = [topo_spread("zone", minDomains=len(zones))]
+        p["terms"] = [[expr("zone", "In", rng.sample(zones, max(1, len(zones) - 1)))]]
     def spread_host(p): p["labels"]["app"] = "s"; p["spread"] = [topo_spread("host", skew=rng.choice([1, 1, 2]))]
     def spread_zone_host(p): p["labels"]["app"] = "s"; p["spread"] = [topo_spread("zone"), topo_spread("host")]
     def spread_limited(p): p["labels"]["app"] = "s"; p["spread"] = [topo_spread("zone")]; p["sel"]["zone"] = z()
@@ -513,7 +516,7 @@ def topo_archetypes(rng, zones):
     # (the OR-term spread archetypes are not mixed into arbitrary batches: explore_topo submits them as a deployment - replicas with
     #  identical terms - see topo_or_terms)
     topo_archetypes.or_terms = [spread_or_disjoint, spread_or_disjoint, spread_or_overlap, spread_or_unsat, spread_or_three]
-    fns = [guard_host, db_host, guard_zone, db_zone, plain_d, aff_g_d, aff_d_d,
+    fns = [spread_zone_min_limited, guard_host, db_host, guard_zone, db_zone, plain_d, aff_g_d, aff_d_d,
            plain_x, plain_s, plain_s_zone, self_anti_host, self_anti_zone, anti_x, anti_x_labelled, aff_x, self_aff_zone, self_aff_host,
            self_aff_zone_sel, aff_and_anti, pref_anti, pref_aff, spread_zone, spread_zone2, spread_zone_min, spread_host, spread_zone_host,
            spread_limited, spread_limited_terms, spread_two_terms, spread_ignore, spread_honor_taints, spread_honor_tol, spread_matchkeys,
